@@ -224,8 +224,8 @@ def gen_case(seed, k):
 
 
 def plan(tier, seed):
-	n_arch = 160 if tier == "quick" else 5000
-	per = 8 if tier == "quick" else 50
+	n_arch = 160 if tier == "quick" else 30000
+	per = 8 if tier == "quick" else 250
 	return [{"cls": "arch", "k0": k, "k1": min(n_arch, k + per),
 		"seed": seed, "weight": per} for k in range(0, n_arch, per)]
 
